@@ -3,7 +3,7 @@ from .. import sym
 from ..evalfn import SELF
 from ..sym import canon
 from . import core_rules
-from .common import over_all_children, own_event, ALGOS, CORE, G, Roles, cur, dominates, fld, guard_subset, has_lit, increments_by, loop_conditions, plain, short
+from .common import over_all_children, own_event, ALGOS, CORE, G, Roles, cur, dominates, fld, guard_subset, has_lit, increments_by, lits, loop_conditions, plain, short
 from .core_rules import bound_args, equal, norm_versions
 
 TARGET = ("param", "target")
@@ -201,7 +201,25 @@ def strategy_rebalance(chk, pid):
     if pid in ("C06", "C17"):
         zw = ("zero", sym._abs_norm(sym.to_rat(weight)))
         rets = [e for e in S.events if e.kind == "return" and tuple(e.chain) == (fi.qual,)]
-        early = [e for e in rets if any(e.seq < t.seq for t in trades)]
+        # an exit that no trade precedes on its own path
+        def traded_before(e):
+            before = [lits(plain(t.guard)) for t in trades if t.seq < e.seq]
+
+            def covered(g, depth):
+                if sym.inconsistent(g):
+                    return True
+                open_atom = None
+                for tg in before:
+                    undecided = [(a, p) for a, p in tg if not sym.lit_holds(g, a, p)]
+                    if not undecided:
+                        return True
+                    if open_atom is None and not any(sym.lit_holds(g, a, not p) for a, p in tg):
+                        open_atom = undecided[0][0]
+                if open_atom is None or depth == 0:
+                    return False
+                return all(covered(sym.sat(tuple(g) + ((open_atom, pol),)), depth - 1) for pol in (True, False))
+            return covered(G(e), 4)
+        early = [e for e in rets if not traded_before(e)]
         bad = [e for e in early if not sym.lit_holds(G(e), zw, True)]
         # an early exit inside one accounting mode belongs to that mode's property
         if pid == "C06":
